@@ -5,7 +5,7 @@ CONSTANTS
   Leafs = {101, 150}
   Shapes = {200, 201, 210, 211, 220, 221, 222}
   MaxLen = 3
-  Acts = {"dict", "list", "perm", "clone", "forget", "slice", "rebind", "inplace", "json", "facts", "nscope"}
+  Acts = {"dict", "list", "perm", "clone", "forget", "slice", "rebind", "inplace", "json", "facts", "nscope", "construct"}
   Mirror = FALSE
   MaxLevel = 40
   InitKinds <- IK_ObjbDict
